@@ -2,16 +2,18 @@
 C04  Snapshot store plus log always rebuilds the applied state.
 
 Model: RqModel/Model/SnapSM.lean (store/store.go fsmSnapshot / OnRelease / fsmRestore / LOAD /
-ReadFrom / Open as of the `fix:` commits 6482ad3 and bb0a5c5 = code level 2; snapshot sink incl. its
+ReadFrom / Open as of the `fix:` commits 6482ad3, bb0a5c5 and the requirement-token commit = code level 3; snapshot sink incl. its
 re-check of the full-needed requirement, ResolveFiles, Restore). Lemmas: RqModel/Lemmas/SnapSM.lean.
 
 Histories are arbitrary lists of `Op`: write batches, no-ops, FSM.Snapshot() (`snapBegin`) and —
-after any number of further writes / loads / no-ops, as hashicorp/raft allows — its Persist+Close or
+after any number of further writes / loads / no-ops, as hashicorp/raft allows (a Persist that blocks
+forever is a `snapBegin` never followed by its `snapEnd`) — its Persist+Close or
 Release (`snapEnd` with any `Outcome`: installed; Persist not invoked; Persist failing before /
 after the staged WAL is consumed), user snapshots, loads, boots, snapshot installs, reaps, restarts.
 -/
 import RqModel.Lemmas.SnapSM
 import RqModel.Gen.StoreStaging
+import RqModel.Gen.SinkShape
 namespace C04
 open RqModel.SnapSM
 
@@ -22,18 +24,18 @@ FULL_NEEDED flag or the modification-time guard), the staged WAL segments are ex
 between that restored snapshot and the database file — so the next incremental snapshot extends
 the chain correctly; and a snapshot that has been captured but not yet persisted will satisfy
 both when it is installed, whatever was applied in between. -/
-theorem chain_inv (ops : List Op) : ChainInv (run 2 {} ops) :=
+theorem chain_inv (ops : List Op) : ChainInv (run 3 {} ops) :=
   run_inv ops {} chainInv_init
 
 /-- Hence a node restarting from the snapshot store after any history opens and holds exactly
 what it had applied … -/
 theorem restart_rebuilds_applied_state (ops : List Op) :
-    let s := run 2 {} ops
-    (step 2 s .restart).2 = "ok" ∧ (step 2 s .restart).1.db = s.db := by
+    let s := run 3 {} ops
+    (step 3 s .restart).2 = "ok" ∧ (step 3 s .restart).1.db = s.db := by
   intro s
   have h := chain_inv ops
   have hre := h.restore
-  cases hr : resolve (run 2 {} ops).snaps with
+  cases hr : resolve (run 3 {} ops).snaps with
   | none => have := h.resolves; rw [hr] at this; cases this
   | some r =>
     rw [hr] at hre
@@ -42,12 +44,28 @@ theorem restart_rebuilds_applied_state (ops : List Op) :
     simp only [step, hr', hre']
     exact ⟨trivial, trivial⟩
 
-/-- … and a follower that has a snapshot installed holds exactly the snapshot's database, with
-nothing stale left to leak into its next incremental snapshot. -/
-theorem install_gives_snapshot_state (ops : List Op) (c : C) (hp : (run 2 {} ops).pend = none) :
-    let s := (step 2 (run 2 {} ops) (.install c)).1
-    resolve s.snaps = some c ∧ s.db = c ∧ s.staged = [] := by
-  simp [step, hp, resolve_snoc, resolveStep]
+/-- Two machines. The leader has any history `lops`; a follower (any history `fops`, no snapshot
+of its own in flight) is sent the leader's newest snapshot — the database it restores to — and
+installs it, then receives the leader's log entries after that snapshot. The follower ends up with
+exactly the leader's applied database, its own newest snapshot restores to what was sent, and
+nothing stale is staged for its next incremental snapshot. -/
+theorem follower_install_then_replay_equals_leader (lops fops : List Op)
+    (hp : (run 3 {} fops).pend = none) :
+    let L := run 3 {} lops
+    ∃ r, resolve L.snaps = some r ∧
+      let F := (step 3 (run 3 {} fops) (.install r)).1
+      resolve F.snaps = some r ∧ F.db = r ∧ F.staged = [] ∧ replay (some F.db) L.tail = some L.db := by
+  intro L
+  have h := chain_inv lops
+  cases hr : resolve (run 3 {} lops).snaps with
+  | none => have := h.resolves; rw [hr] at this; cases this
+  | some r =>
+    refine ⟨r, rfl, ?_⟩
+    have hre := h.restore
+    rw [hr] at hre
+    simp only [step, hp, Option.isSome_none, Bool.false_eq_true, if_false]
+    refine ⟨by simp [resolve_snoc, resolveStep], by simp, by simp, ?_⟩
+    simpa using hre
 
 /-! ### the defects repaired in /repo, kept as checked counterexamples on the older code levels -/
 
@@ -64,9 +82,9 @@ theorem stale_staged_wal_witness :
     (step 0 (run 0 {} staleAfterLoad) .restart).2 = "corrupt" ∧
     resolve (run 0 {} staleAfterLoad).snaps = none ∧
     (step 0 (run 0 {} staleAfterInstall) .restart).2 = "corrupt" ∧
-    (step 2 (run 2 {} staleAfterLoad) .restart).2 = "ok" ∧
-    (run 2 {} staleAfterLoad).db = [3, 4, 5] ∧
-    (step 2 (run 2 {} staleAfterInstall) .restart).2 = "ok" := by decide
+    (step 3 (run 3 {} staleAfterLoad) .restart).2 = "ok" ∧
+    (run 3 {} staleAfterLoad).db = [3, 4, 5] ∧
+    (step 3 (run 3 {} staleAfterInstall) .restart).2 = "ok" := by decide
 
 /-- bb0a5c5 (level 1 → 2): a full snapshot of database A is captured; a load of B is applied before
 it is persisted; the sink installs full(A) and clears FULL_NEEDED; from here only the
@@ -79,24 +97,43 @@ def guardLost : List Op :=
 
 theorem mtime_guard_lost_witness :
     (step 1 (run 1 {} guardLost) .restart).2 = "corrupt" ∧
-    (step 2 (run 2 {} guardLost) .restart).2 = "ok" ∧ (run 2 {} guardLost).db = [2, 3, 4] := by decide
+    (step 2 (run 2 {} guardLost) .restart).2 = "ok" ∧
+    (step 3 (run 3 {} guardLost) .restart).2 = "ok" ∧ (run 3 {} guardLost).db = [2, 3, 4] := by decide
 
-/-- On the current code the window "full(A) installed after load B, flag cleared" is protected by
-the modification-time guard alone: the very next FSM.Snapshot() is a full one. -/
-theorem after_racing_close_next_is_full :
-    let s := run 2 {} [.write 1, .snapBegin, .load [2], .snapEnd .ok, .write 3]
-    s.fullNeeded = false ∧ s.modified = true ∧ (snapBegin 2 s).2 = "full" := by decide
+/-- The requirement-token commit (level 2 → 3): up to level 2 the sink, installing the full
+snapshot of A captured before load B was applied, cleared the requirement the load had raised,
+and only the modification-time guard remembered the load (`after_racing_close…`: the next
+FSM.Snapshot() is still a full one). From level 3 on the requirement survives. -/
+theorem racing_close_witness :
+    let h := [Op.write 1, .snapBegin, .load [2], .snapEnd .ok, .write 3]
+    (run 2 {} h).fullNeeded = false ∧ (run 2 {} h).modified = true ∧ (snapBegin 2 (run 2 {} h)).2 = "full" ∧
+    (run 3 {} h).fullNeeded = true ∧ (snapBegin 3 (run 3 {} h)).2 = "full" := by decide
+
+/-- … also when the modification-time guard is unavailable (what a coarse file-system clock, or a
+change like "LOAD records the swapped file's time", amounts to): with the guard forced off after
+the racing Close, level 2 takes an incremental snapshot on top of full(A); level 3 does not. -/
+theorem requirement_survives_without_mtime_guard :
+    let h := [Op.write 1, .snapBegin, .load [2], .snapEnd .ok, .write 3]
+    (snapBegin 2 { run 2 {} h with modified := false }).2 = "incremental" ∧
+    (snapBegin 3 { run 3 {} h with modified := false }).2 = "full" := by decide
 
 /-! ### tie to the source (regenerated on every run) -/
 
 /-- the places the model drops the staging directory / raises the requirement are in the source:
 the full-snapshot branch of fsmSnapshot (unconditionally, before the checkpoint), fsmRestore
-(after the swap) and Open -/
+(after the swap) and Open; a full snapshot carries the requirement token read at capture time; the
+sink clears the requirement only for a full snapshot with a token, by compare-and-clear under the
+store's lock; nothing else in the sources lowers the requirement -/
 theorem staging_dropped_in_source :
     RqModel.Gen.StoreStaging.fullSnapshotDropsStaging = some true ∧
     RqModel.Gen.StoreStaging.fullSnapshotAlwaysRequiresFull = some true ∧
     RqModel.Gen.StoreStaging.restoreDropsStaging = some true ∧
-    RqModel.Gen.StoreStaging.openDropsStaging = some true := by decide
+    RqModel.Gen.StoreStaging.openDropsStaging = some true ∧
+    RqModel.Gen.StoreStaging.fullSnapshotCapturesToken = some true ∧
+    RqModel.Gen.SinkShape.clearGuard = "s.stc != nil && s.localWALDir == \"\" && s.hasFullNeededToken" ∧
+    RqModel.Gen.SinkShape.clearComparesToken = true ∧
+    RqModel.Gen.SinkShape.requirementChangesSerialized = true ∧
+    RqModel.Gen.SinkShape.setDueNextNonFullCallers = [] := by decide
 
 /-! ### non-vacuity: a history with every kind of operation -/
 
@@ -106,6 +143,6 @@ def exHistory : List Op :=
    .snapBegin, .write 9, .load [10], .snapEnd .ok, .write 11, .snapBegin, .noop, .snapEnd .ok,
    .install [12], .write 13, .snapshot .ok, .restart]
 
-example : (run 2 {} exHistory).db = [12, 13] ∧ resolve (run 2 {} exHistory).snaps = some [12, 13] := by decide
+example : (run 3 {} exHistory).db = [12, 13] ∧ resolve (run 3 {} exHistory).snaps = some [12, 13] := by decide
 
 end C04
